@@ -99,6 +99,9 @@ static Token *new_eof(Token *tok) {
   Token *t = copy_token(tok);
   t->kind = TK_EOF;
   t->len = 0;
+  // The end of a token list ends its last line, as the end of a file
+  // does: copy_line() and skip_line() stop here.
+  t->at_bol = true;
   return t;
 }
 
